@@ -218,6 +218,23 @@ def family(quick):
                 {"a": "flush", "g": "PR", "obj": "U1", "ctxMs": PROBE_CTX, "wait": True},
                 {"a": "closeUp", "g": "PR", "obj": "U1", "ctxMs": PROBE_CTX, "wait": True}]
         scs.append({"id": "C08/abandonedFlush/%d" % k, "kind": "iscp", "conn": dict(conn), "steps": steps + pr[:6] + mine + pr[6:]})
+    # stolen flush result (FlushRendezvous.tla, OwnResult): F1's context ends while F1 is between handing over its request and waiting for
+    # the result (scheduling point upstream.flush.handed); the loop abandons it; F2 hands over a request under a live context and is
+    # delayed at the same point; F1 is released first.  F2 must still get its result (probe phase: every call succeeds)
+    for k in range(2 if quick else 6):
+        steps = base + [{"a": "openUp", "obj": "U1", "qos": "reliable", "closeTimeoutMs": 1000, "must": True}, {"a": "ackMode", "mode": "auto"},
+                        {"a": "holdPoint", "mode": "upstream.flush.handed", "n": 1, "gate": "f1"},
+                        {"a": "holdPoint", "mode": "upstream.flush.handed", "n": 1, "gate": "f2"},
+                        {"a": "write", "g": "T", "obj": "U1", "id": "A", "pts": [[1, 4]], "ctxMs": CTX, "wait": True},
+                        {"a": "flush", "g": "F1", "obj": "U1", "ctxMs": 20},
+                        {"a": "await", "ev": "PointHeld", "match": {"gate": "f1"}, "ms": 2000, "must": True}, {"a": "sleep", "ms": 80},
+                        {"a": "mark", "mode": "probe"},
+                        {"a": "flush", "g": "F2", "obj": "U1", "ctxMs": PROBE_CTX},
+                        {"a": "await", "ev": "PointHeld", "match": {"gate": "f2"}, "ms": 2000, "must": True}, {"a": "sleep", "ms": 40},
+                        {"a": "release", "gate": "f1"}, {"a": "join", "obj": "F1"}, {"a": "sleep", "ms": 10},
+                        {"a": "release", "gate": "f2"}, {"a": "join", "obj": "F2"},
+                        {"a": "closeUp", "g": "T", "obj": "U1", "ctxMs": PROBE_CTX, "wait": True}]
+        scs.append({"id": "C08/flushResult/%d" % k, "kind": "iscp", "conn": dict(conn), "steps": steps + probes()[1:]})
     return scs
 
 
